@@ -25,7 +25,11 @@ JudgeNet(ev) ==
          LET r == ev.outs[o].out
              ok == r.shape = exp.shape /\ r.vals = exp.vals
              others == {p \in Arr(free) : p # free /\ r.vals = EinsteinSumOut(ops, p, cx)}
-         IN IF ok THEN TRUE
+             \* L2 binding of the cost model: the logged which_variant must be the one NetworkOrder!CostVariant derives (DRIFT otherwise)
+             costDrift == Len(x.labels) = 3 /\ r.variant \in 0..3
+                          /\ r.variant # CostVariant(x.labels[1], x.labels[2], x.labels[3], ExtentMap(x.labels, x.shapes))
+         IN (IF costDrift THEN PrintT(<<"DRIFT", l, ev.case, ev.outs[o].cfg, "cost">>) ELSE TRUE) /\
+            IF ok THEN TRUE
             ELSE IF others # {}
                  THEN /\ RejectTag(l, ev.case, ev.outs[o].cfg, "pairing_order")
                       /\ (IF Len(x.labels) = 3 /\ ~(ImplOrder3(x.labels[1], x.labels[2], x.labels[3], r.variant) \in others)
